@@ -466,6 +466,8 @@ pub fn build_seeds(tier: Tier) -> (Vec<Seed>, SeedStats) {
     // cheap (about 0.1 s of CPU in total) and ahead of the 18 000 sparse-bit-set units, so that a deadline on a busy
     // machine never cuts it
     crate::extarg::extarg_seeds(&mut out);
+    // hand-assembled AAT state tables / lookups, each run once (about 0.2 s of CPU in total)
+    crate::aatsynth::aatsynth_seeds(&mut out);
     crate::sparsebits::sparsebits_seeds(&mut out);
     crate::capsweep::capsweep_seeds(&mut out);
     // (ii) font-test-data static blobs: fit matrix — a blob seeds every type (and argument value)
